@@ -63,7 +63,7 @@ func (c15) Gen(r *rand.Rand, tier string, i int) any {
 		c.Prog = gen.RandProgram(r, o)
 	} else {
 		// no built-in predicates at all: function expressions are unguarded, divergent programs are cut by a fact limit and skipped
-		o := gen.ProgOpts{Negation: true, Compare: false, Functions: r.Intn(3) == 0, Unguarded: true, Lists: false, Wildcards: r.Intn(2) == 0, FnInAtoms: r.Intn(4) == 0, MaxIDB: 4}
+		o := gen.ProgOpts{Negation: true, Compare: false, Functions: r.Intn(3) == 0, Unguarded: true, Lists: false, Wildcards: r.Intn(2) == 0, FnInAtoms: r.Intn(2) == 0, MaxIDB: 4}
 		c.Prog = gen.RandProgram(r, o)
 	}
 	c.Text = progText(c.Prog)
